@@ -391,3 +391,362 @@ Proof.
   induction 1. reflexivity.
   rewrite (Happ _ _ _ _ _ _ _ _ _ IHgrun_rel). simpl. rewrite H0. reflexivity.
 Qed.
+
+(* ------------------------------------------------------------------------------------------------ *)
+(* Happens-before for the two-level system: every level of a global execution is an execution of that *)
+(* level with the happens-before tracker running alongside                                           *)
+
+Theorem results_read_after_write_global : forall Rp Ra strict GG cap, wf_dag (gtopd GG) -> 1 <= cap ->
+  forall tr (s : gstate Rp Ra), grun_rel Rp Ra strict GG cap tr s ->
+  (exists g h, hrun Rp true strict (gtopd GG) (proj_top Rp Ra tr) (gtop s) g h /\
+     (forall a s', gstep strict GG cap s (GTop (EStart a)) = Some s' ->
+        forall d, dep_plus (gtopd GG) d a -> In d (kt h a) /\ get (dn (gtop s)) d = true) /\
+     (gfinal s = true -> forall a, In a (nodes (gtopd GG)) -> In a (km h) /\ get (dn (gtop s)) a = true))
+  /\ (forall p si, get (ginner s) p = Some si ->
+        exists g h, hrun Ra false strict (ginnerd GG p) (proj_in Rp Ra p tr) si g h /\
+          (forall a s', gstep strict GG cap s (GIn p (EStart a)) = Some s' ->
+             forall d, dep_plus (ginnerd GG p) d a -> In d (kt h a) /\ get (dn si) d = true) /\
+          (final si = true -> forall a, In a (nodes (ginnerd GG p)) -> In a (km h) /\ get (dn si) a = true)).
+Proof.
+  intros Rp Ra strict GG cap WFT CAP tr s H.
+  destruct (grun_proj Rp Ra strict GG cap tr s H) as [Ht Hi].
+  destruct (grun_GInv Rp Ra strict GG cap WFT CAP tr s H) as [hold I]. split.
+  - destruct (lrun_hrun _ _ _ _ _ _ Ht) as [g [h Hh]]. exists g, h. split; auto. split.
+    + intros a s' Hs d Hd. unfold gstep in Hs.
+      destruct (step true strict (gtopd GG) (gtop s) (gfree s) (EStart a)) as [[t' f'] |] eqn:E; try discriminate.
+      eapply results_read_after_write_level; eauto.
+    + intros Hf a Ha. eapply final_reads_after_writes_level; eauto.
+  - intros p si Ep. specialize (Hi p). rewrite Ep in Hi. destruct (gi_in _ _ _ _ _ _ I p si Ep) as [Wp _].
+    destruct (lrun_hrun _ _ _ _ _ _ Hi) as [g [h Hh]]. exists g, h. split; auto. split.
+    + intros a s' Hs d Hd. unfold gstep in Hs. rewrite Ep in Hs.
+      destruct (step false strict (ginnerd GG p) si (gfree s) (EStart a)) as [[si' f'] |] eqn:E; try discriminate.
+      eapply results_read_after_write_level; eauto.
+    + intros Hf a Ha. eapply final_reads_after_writes_level; eauto.
+Qed.
+
+(* ------------------------------------------------------------------------------------------------ *)
+(* Results of the two-level system: executions in which every analyzer returns the value of one fixed   *)
+(* function of its inputs and every package result is computed from its analyzers' results              *)
+
+Section GlobalExec.
+Variables Rp Ra : Type.
+Variables (strict : bool) (GG : gdag) (cap : nat).
+Hypothesis WFT : wf_dag (gtopd GG).
+Hypothesis CAP : 1 <= cap.
+Notation GT := (gtopd GG).
+Notation GI := (ginnerd GG).
+
+Variable exec_an : nat -> (nat -> option Rp) -> nat -> (nat -> option Ra) -> option Ra.
+Variable need : nat -> (nat -> option Rp) -> bool.
+Variable fin : nat -> (nat -> option Rp) -> (nat -> option Ra) -> option Rp.
+Variable fout : nat -> (nat -> option Rp) -> option Rp.
+
+(* everything a package computes depends on the other packages only through the results of its dependencies;
+   an analyzer depends on the other analyzers only through the results of the analyzers it requires *)
+Hypothesis exec_an_top_local : forall p m m', (forall d, In d (deps GT p) -> m d = m' d) -> forall a r, exec_an p m a r = exec_an p m' a r.
+Hypothesis exec_an_in_local : forall p m a r r', (forall d, In d (deps (GI p) a) -> r d = r' d) -> exec_an p m a r = exec_an p m a r'.
+Hypothesis need_local : forall p m m', (forall d, In d (deps GT p) -> m d = m' d) -> need p m = need p m'.
+Hypothesis fout_local : forall p m m', (forall d, In d (deps GT p) -> m d = m' d) -> fout p m = fout p m'.
+Hypothesis fin_local : forall p m m' r r', (forall d, In d (deps GT p) -> m d = m' d) ->
+  (forall a, In a (nodes (GI p)) -> r a = r' a) -> fin p m r = fin p m' r'.
+
+Notation gstate := (gstate Rp Ra).
+Notation glabel := (glabel Rp Ra).
+Notation exec_top := (exec_top GG exec_an need fin fout).
+Notation gcons := (gconsistent exec_an need fin fout).
+
+Lemma exec_top_local : forall p m m', (forall d, In d (deps GT p) -> m d = m' d) -> exec_top p m = exec_top p m'.
+Proof.
+  intros p m m' H. unfold C06.exec_top. rewrite (need_local p m m' H). destruct (need p m').
+  - apply fin_local; auto. intros a _. apply den_ext. intros. apply exec_an_top_local. assumption.
+  - apply fout_local. assumption.
+Qed.
+
+Inductive gcrun : list glabel -> gstate -> Prop :=
+| gc_nil : gcrun [] (ginit GG cap)
+| gc_snoc : forall tr s l s', gcrun tr s -> gstep strict GG cap s l = Some s' -> gcons s l -> gcrun (tr ++ [l]) s'.
+
+Lemma gcrun_grun : forall tr s, gcrun tr s -> grun_rel Rp Ra strict GG cap tr s.
+Proof. induction 1; econstructor; eauto. Qed.
+
+Record GF (s : gstate) : Prop := mkGF {
+  gf_top : InvF Rp GT exec_top (gtop s);
+  gf_in : forall p si, get (ginner s) p = Some si -> running s p = true ->
+            InvF Ra (GI p) (exec_an p (get (res (gtop s)))) si /\ need p (get (res (gtop s))) = true;
+  gf_started : forall p si, get (ginner s) p = Some si ->
+            exists t, get (th (gtop s)) p = Some t /\ hph t <> HFresh /\ hph t <> HRun true }.
+
+Lemma GF_init : GF (ginit GG cap).
+Proof.
+  constructor; unfold ginit; simpl; intros; try (rewrite get_const in *; discriminate).
+  apply InvF_init.
+Qed.
+
+Lemma running_inv : forall (s : gstate) p, running s p = true -> exists t, get (th (gtop s)) p = Some t /\ hph t = HRun false.
+Proof.
+  unfold running. intros. destruct (get (th (gtop s)) p) as [t |]; try discriminate.
+  exists t. split; auto. destruct (hph t) as [| [|] | | |]; try discriminate. reflexivity.
+Qed.
+
+Lemma final_closed_inv : forall R top G tr (s : lstate R), lrun R top strict G tr s -> final s = true -> closed s = true.
+Proof. intros. eapply final_closed; eauto. Qed.
+
+(* what a package-level step may do to the handler of another package p that is running its analyzers *)
+Lemma running_preserved : forall (s : gstate) gt free e t' f' p,
+  Inv Rp true GT (gtop s) gt -> step true strict GT (gtop s) free e = Some (t', f') ->
+  (match get (th t') p with Some t => match hph t with HRun false => true | _ => false end | None => false end) = true ->
+  (forall t, get (th (gtop s)) p = Some t -> hph t <> HFresh) -> get (th (gtop s)) p <> None ->
+  running s p = true /\ (forall q o, e = EEnd q o -> q <> p).
+Proof.
+  intros s gt free e t' f' p It Hs Hr Hnf Hex.
+  destruct (th_step Rp true strict GT (gtop s) gt free e t' f' It Hs p) as [E | [[E1 _] | [t [p' [E1 [E2 E3]]]]]].
+  - rewrite E in Hr. split. exact Hr. intros q o -> Hq. subst q.
+    unfold C06.step in Hs. unfold running in Hr. destruct (get (th (gtop s)) p) as [t |] eqn:Et; try discriminate.
+    destruct (hph t) eqn:Ep; try discriminate.
+    destruct (sk && isSome o); try discriminate. inversion Hs; subst. simpl in E. rewrite gss in E.
+    inversion E as [Ex]. rewrite <- Ex in Ep. simpl in Ep. unfold after_end in Ep. destruct (hsem t); discriminate.
+  - congruence.
+  - rewrite E2 in Hr. simpl in Hr. exfalso. destruct e; simpl in E3; try contradiction.
+    + destruct E3 as [_ [E3 _]]. eapply Hnf; eauto.
+    + destruct E3 as [_ [_ ->]]. destruct (hsem t); discriminate.
+    + destruct E3 as [_ [_ ->]]. discriminate.
+    + destruct E3 as [_ [ts [_ [-> | ->]]]]; discriminate.
+    + destruct E3 as [_ [ts [_ ->]]]. discriminate.
+    + destruct E3 as [_ [_ ->]]. destruct (hsem t); discriminate.
+Qed.
+
+(* the analyzers' final results are the denotation of the analyzer graph *)
+Lemma inner_final_den : forall tr (s : gstate) hold p si,
+  grun_rel Rp Ra strict GG cap tr s -> GInv Rp Ra GG cap s hold -> GF s ->
+  get (ginner s) p = Some si -> running s p = true -> final si = true ->
+  forall a, In a (nodes (GI p)) -> get (res si) a = den (GI p) (exec_an p (get (res (gtop s)))) a.
+Proof.
+  intros tr s hold p si Hr I F Ep Hrun Hf a Ha.
+  destruct (gi_in _ _ _ _ _ _ I p si Ep) as [Wp [gi Ii]].
+  destruct (gf_in _ F p si Ep Hrun) as [Fi _].
+  destruct (grun_proj Rp Ra strict GG cap tr s Hr) as [_ Hi]. specialize (Hi p). rewrite Ep in Hi.
+  pose proof (final_closed_inv _ _ _ _ _ Hi Hf) as Hc.
+  assert (Hloc : forall x m m', (forall d, In d (deps (GI p) x) -> m d = m' d) ->
+             exec_an p (get (res (gtop s))) x m = exec_an p (get (res (gtop s))) x m').
+  { intros. apply exec_an_in_local. assumption. }
+  destruct (sol_of_inv Ra false (GI p) Wp _ si gi Ii Fi Hc) as [S _].
+  apply (sol_unique Ra (GI p) Wp _ Hloc _ _ S (den_sol Ra (GI p) Wp _ Hloc) a Ha).
+Qed.
+
+Lemma GF_step : forall tr s hold l s', grun_rel Rp Ra strict GG cap tr s -> GInv Rp Ra GG cap s hold -> GF s ->
+  gstep strict GG cap s l = Some s' -> gcons s l -> GF s'.
+Proof.
+  intros tr s hold l s' Hr I F H C.
+  destruct (gi_top _ _ _ _ _ _ I) as [gt It].
+  destruct l as [e | p | p e]; unfold C06.gstep in H.
+  - (* package level *)
+    destruct (match e with EEnd p _ => inner_done s p | _ => true end) eqn:Hok; try discriminate.
+    destruct (step true strict GT (gtop s) (gfree s) e) as [[t' f'] |] eqn:Hs; try discriminate.
+    inversion H; subst; clear H.
+    assert (Cons : consistent exec_top (gtop s) e).
+    { destruct e; simpl; auto. intros t Ht Hp.
+      assert (Hrun : running s a = true) by (unfold running; rewrite Ht, Hp; reflexivity).
+      simpl in C. specialize (C Hrun). destruct (get (ginner s) a) as [si |] eqn:Ep.
+      - destruct C as [Hn ->]. unfold C06.exec_top. rewrite Hn. apply fin_local; auto.
+        unfold inner_done in Hok. rewrite Ep in Hok. intros x Hx. eapply inner_final_den; eauto.
+      - destruct C as [Hn ->]. unfold C06.exec_top. rewrite Hn. reflexivity. }
+    constructor; simpl.
+    + exact (InvF_step Rp true strict GT WFT exec_top exec_top_local (gtop s) gt (gfree s) e t' f' It (gf_top _ F) Hs Cons).
+    + intros p si Ep Hrun. unfold running in Hrun. simpl in Hrun.
+      destruct (gf_started _ F p si Ep) as [tp [Htp [Hnf _]]].
+      destruct (running_preserved s gt (gfree s) e t' f' p It Hs Hrun ltac:(intros t0 Ht0; congruence) ltac:(congruence)) as [Hold Hne].
+      destruct (gf_in _ F p si Ep Hold) as [Fi Hn].
+      (* the results of p's dependencies are not touched by this step *)
+      assert (Hag : forall d, In d (deps GT p) -> get (res (gtop s)) d = get (res t') d).
+      { intros d Hd. destruct e; try (unfold C06.step in Hs;
+          repeat match type of Hs with context [match ?x with _ => _ end] => destruct x eqn:?; try discriminate end;
+          inversion Hs; subst; reflexivity).
+        assert (a <> p) by (eapply Hne; eauto).
+        unfold C06.step in Hs. destruct (get (th (gtop s)) a) as [ta |] eqn:Eta; try discriminate.
+        destruct (hph ta) eqn:Epa; try discriminate. destruct (sk && isSome o); try discriminate.
+        inversion Hs; subst. simpl. cases d a; gsimp; auto.
+        (* a is a dependency of p that has not ended, but p has been started *)
+        exfalso. destruct (running_inv s p Hold) as [t0 [Ht0 Hp0]].
+        assert (get (dn (gtop s)) a = true).
+        { eapply (i_deps _ _ _ _ _ It p); eauto. eapply th_alln; eauto. erewrite th_stage; eauto. discriminate. }
+        rewrite (i_dn _ _ _ _ _ It _ _ Eta), Epa in H0. discriminate. }
+      split.
+      * eapply InvF_ext; [| exact Fi]. intros. apply exec_an_top_local. assumption.
+      * rewrite <- Hn. symmetry. apply need_local. assumption.
+    + intros p si Ep. destruct (gf_started _ F p si Ep) as [tp [Htp [Hnf Hnt]]].
+      destruct (th_step Rp true strict GT (gtop s) gt (gfree s) e t' f' It Hs p) as [E | [[E1 _] | [t [p' [E1 [E2 E3]]]]]].
+      * rewrite E. eauto.
+      * congruence.
+      * rewrite E2. eexists. split. reflexivity. simpl. rewrite Htp in E1. inversion E1; subst t.
+        destruct e; simpl in E3; try contradiction.
+        -- destruct E3 as [_ [E3 _]]. congruence.
+        -- destruct E3 as [_ [_ ->]]. destruct (hsem tp); split; discriminate.
+        -- destruct E3 as [_ [_ ->]]. split; discriminate.
+        -- destruct E3 as [_ [ts [_ [-> | ->]]]]; split; discriminate.
+        -- destruct E3 as [_ [ts [_ ->]]]. split; discriminate.
+        -- destruct E3 as [_ [E3 _]]. congruence.
+  - (* runAnalyzers builds its graph *)
+    destruct (running s p && isNone (get (ginner s) p) && wf_dagb (GI p)) eqn:Hc; try discriminate.
+    inversion H; subst; clear H.
+    apply andb_true_iff in Hc. destruct Hc as [Hc Hw]. apply andb_true_iff in Hc. destruct Hc as [Hrun Hn].
+    constructor; simpl.
+    + apply (gf_top _ F).
+    + intros q si Eq Hq. unfold running in Hq. simpl in Hq. cases q p; gsimp.
+      * inversion Eq; subst. split. apply InvF_init. exact C.
+      * apply (gf_in _ F q si Eq Hq).
+    + intros q si Eq. cases q p; gsimp.
+      * destruct (running_inv s p Hrun) as [t [Ht Hp]]. exists t. split; auto. rewrite Hp. split; discriminate.
+      * apply (gf_started _ F q si Eq).
+  - (* analyzer level *)
+    destruct (get (ginner s) p) as [si |] eqn:Ep; try discriminate.
+    destruct (step false strict (GI p) si (gfree s) e) as [[si' f'] |] eqn:Hs; try discriminate.
+    inversion H; subst; clear H.
+    destruct (gi_in _ _ _ _ _ _ I p si Ep) as [Wp [gi Ii]].
+    constructor; simpl.
+    + apply (gf_top _ F).
+    + intros q sq Eq Hq. unfold running in Hq. simpl in Hq. cases q p; gsimp.
+      * inversion Eq; subst. destruct (gf_in _ F p si Ep Hq) as [Fi Hn]. split; auto.
+        eapply InvF_step; eauto.
+      * apply (gf_in _ F q sq Eq Hq).
+    + intros q sq Eq. cases q p; gsimp.
+      * apply (gf_started _ F p si Ep).
+      * apply (gf_started _ F q sq Eq).
+Qed.
+
+Lemma gcrun_inv : forall tr s, gcrun tr s -> (exists hold, GInv Rp Ra GG cap s hold) /\ GF s.
+Proof.
+  induction 1.
+  - split. exists []. apply GInv_init; assumption. apply GF_init.
+  - destruct IHgcrun as [[hold I] F]. split.
+    + eexists. eapply GInv_step; eauto.
+    + eapply (GF_step tr s hold l s' (gcrun_grun _ _ H) I F); eauto.
+Qed.
+
+(* confluence for the two-level system: every maximal execution ends with the same package results and
+   failed flags: the denotation of the package graph, where the result of a package is computed from the
+   denotation of its analyzer graph *)
+Theorem final_den_global : forall tr s, gcrun tr s -> gfinal s = true -> forall p, In p (nodes GT) ->
+  get (res (gtop s)) p = den GT exec_top p /\ get (failed (gtop s)) p = isNone (den GT exec_top p).
+Proof.
+  intros tr s Hc Hf p Hp. destruct (gcrun_inv _ _ Hc) as [[hold I] F].
+  destruct (gi_top _ _ _ _ _ _ I) as [gt It].
+  destruct (grun_proj Rp Ra strict GG cap tr s (gcrun_grun _ _ Hc)) as [Ht _].
+  pose proof (final_closed_inv _ _ _ _ _ Ht Hf) as Hcl.
+  destruct (sol_of_inv Rp true GT WFT _ (gtop s) gt It (gf_top _ F) Hcl) as [S E].
+  pose proof (sol_unique Rp GT WFT _ exec_top_local _ _ S (den_sol Rp GT WFT _ exec_top_local) p Hp) as Ed.
+  split. assumption. rewrite (E p Hp), Ed. reflexivity.
+Qed.
+
+Theorem confluence_global : forall tr1 s1 tr2 s2, gcrun tr1 s1 -> gfinal s1 = true -> gcrun tr2 s2 -> gfinal s2 = true ->
+  forall p, In p (nodes GT) ->
+    get (res (gtop s1)) p = get (res (gtop s2)) p /\ get (failed (gtop s1)) p = get (failed (gtop s2)) p.
+Proof.
+  intros tr1 s1 tr2 s2 H1 F1 H2 F2 p Hp.
+  destruct (final_den_global _ _ H1 F1 p Hp) as [A1 B1]. destruct (final_den_global _ _ H2 F2 p Hp) as [A2 B2].
+  split; congruence.
+Qed.
+
+(* failed_iff for packages *)
+Theorem failed_iff_global : forall tr s, gcrun tr s -> gfinal s = true -> forall p, In p (nodes GT) ->
+  (get (failed (gtop s)) p = true <->
+   exists d, dep_star GT d p /\ In d (nodes GT) /\ raised Rp GT exec_top (get (res (gtop s))) d).
+Proof.
+  intros tr s Hc Hf p Hp. destruct (gcrun_inv _ _ Hc) as [[hold I] F].
+  destruct (gi_top _ _ _ _ _ _ I) as [gt It].
+  destruct (grun_proj Rp Ra strict GG cap tr s (gcrun_grun _ _ Hc)) as [Ht _].
+  pose proof (final_closed_inv _ _ _ _ _ Ht Hf) as Hcl.
+  destruct (sol_of_inv Rp true GT WFT _ (gtop s) gt It (gf_top _ F) Hcl) as [S E].
+  rewrite (E p Hp). rewrite <- (failed_iff_sol Rp GT WFT _ _ S p Hp).
+  destruct (get (res (gtop s)) p); simpl; split; intros; congruence.
+Qed.
+
+(* ---- no_deadlock for the system with results: a non-final state has an enabled CONSISTENT transition ---- *)
+Hypothesis WFI : forall p, wf_dagb (GI p) = true.
+
+Lemma movable_gstep_in_c : forall (s : gstate) p si gi a, get (ginner s) p = Some si -> Inv Ra false (GI p) si gi ->
+  movable Ra false si a = true -> exists l s', gstep strict GG cap s l = Some s' /\ gcons s l.
+Proof.
+  intros s p si gi a Ep Ii Hm.
+  destruct (movable_step Ra false strict (GI p) si gi a Ii Hm) as [[t [sk [Ht [Hp Hs]]]] | [e [Hs He]]].
+  - set (o := if sk then None else exec_an p (get (res (gtop s))) a (get (res si))).
+    destruct (Hs o (gfree s) ltac:(intros ->; reflexivity)) as [si' Hst].
+    exists (GIn p (EEnd a o)). eexists. split. unfold C06.gstep. rewrite Ep, Hst. reflexivity.
+    simpl. intros si0 E0 t0 Ht0 Hp0. rewrite Ep in E0. inversion E0; subst si0. rewrite Ht in Ht0. inversion Ht0; subst t0.
+    rewrite Hp in Hp0. inversion Hp0; subst sk. reflexivity.
+  - destruct (Hs (gfree s)) as [si' [f' [Hst _]]].
+    exists (GIn p e). eexists. split. unfold C06.gstep. rewrite Ep, Hst. reflexivity.
+    simpl. intros. destruct e; simpl; auto; contradiction.
+Qed.
+
+Lemma inner_progress_c : forall (s : gstate) p si gi, get (ginner s) p = Some si -> wf_dag (GI p) -> Inv Ra false (GI p) si gi ->
+  final si = false -> exists l s', gstep strict GG cap s l = Some s' /\ gcons s l.
+Proof.
+  intros s p si gi Ep Wp Ii Hf.
+  destruct (level_progress Ra false strict (GI p) Wp si gi Ii Hf) as [[a [_ Hm]] | [[b Hm] | [e [He Hs]]]].
+  - eapply movable_gstep_in_c; eauto.
+  - destruct (0 <? gfree s) eqn:Efree.
+    + exists (GIn p (ESpawn b)). eexists. split. unfold C06.gstep, C06.step. rewrite Ep, Hm, Nat.eqb_refl, Efree. reflexivity.
+      simpl. auto.
+    + exists (GIn p (EInline b)). eexists. split. unfold C06.gstep, C06.step. rewrite Ep, Hm, Nat.eqb_refl.
+      apply Nat.ltb_ge in Efree. assert (gfree s = 0) by lia. rewrite H. simpl. rewrite orb_true_r. reflexivity.
+      simpl. auto.
+  - destruct (Hs (gfree s)) as [si' Hst]. exists (GIn p e). eexists. split. unfold C06.gstep. rewrite Ep, Hst. reflexivity.
+    simpl. intros. destruct e; simpl; auto; contradiction.
+Qed.
+
+Lemma top_movable_gstep_c : forall tr (s : gstate) hold a, grun_rel Rp Ra strict GG cap tr s -> GInv Rp Ra GG cap s hold -> GF s ->
+  movable Rp true (gtop s) a = true -> exists l s', gstep strict GG cap s l = Some s' /\ gcons s l.
+Proof.
+  intros tr s hold a Hr I F Hm. destruct (gi_top _ _ _ _ _ _ I) as [gt It].
+  destruct (movable_step Rp true strict GT (gtop s) gt a It Hm) as [[t [sk [Ht [Hp Hs]]]] | [e [Hs He]]].
+  - destruct sk.
+    + (* skipped: ends failed *)
+      destruct (get (ginner s) a) as [si |] eqn:Ep.
+      { exfalso. destruct (gf_started _ F a si Ep) as [t0 [Ht0 [_ Hnt]]]. rewrite Ht in Ht0. inversion Ht0; subst t0. congruence. }
+      destruct (Hs None (gfree s) ltac:(reflexivity)) as [t' Hst].
+      exists (GTop (EEnd a None)). eexists. split. unfold C06.gstep, inner_done. rewrite Ep, Hst. reflexivity.
+      simpl. intros Hrun. unfold running in Hrun. rewrite Ht, Hp in Hrun. discriminate.
+    + (* running *)
+      assert (Hrun : running s a = true) by (unfold running; rewrite Ht, Hp; reflexivity).
+      destruct (get (ginner s) a) as [si |] eqn:Ep.
+      * destruct (gi_in _ _ _ _ _ _ I a si Ep) as [Wp [gi Ii]].
+        destruct (final si) eqn:Hf.
+        -- destruct (gf_in _ F a si Ep Hrun) as [_ Hn].
+           set (o := fin a (get (res (gtop s))) (get (res si))).
+           destruct (Hs o (gfree s) ltac:(discriminate)) as [t' Hst].
+           exists (GTop (EEnd a o)). eexists. split. unfold C06.gstep, inner_done. rewrite Ep, Hf, Hst. reflexivity.
+           simpl. intros _. rewrite Ep. split; auto.
+        -- eapply inner_progress_c; eauto.
+      * destruct (need a (get (res (gtop s)))) eqn:Hn.
+        -- exists (GInit a). eexists. split. unfold C06.gstep. rewrite Hrun, Ep, WFI. reflexivity. simpl. assumption.
+        -- set (o := fout a (get (res (gtop s)))).
+           destruct (Hs o (gfree s) ltac:(discriminate)) as [t' Hst].
+           exists (GTop (EEnd a o)). eexists. split. unfold C06.gstep, inner_done. rewrite Ep, Hst. reflexivity.
+           simpl. intros _. rewrite Ep. split; auto.
+  - destruct (Hs (gfree s)) as [t' [f' [Hst _]]].
+    exists (GTop e). eexists. split. unfold C06.gstep. rewrite Hst. destruct e; try contradiction; reflexivity.
+    destruct e; try contradiction; simpl; auto.
+Qed.
+
+Theorem no_deadlock_consistent : forall tr s, gcrun tr s -> gfinal s = false ->
+  exists l s', gstep strict GG cap s l = Some s' /\ gcons s l.
+Proof.
+  intros tr s Hc Hf. destruct (gcrun_inv _ _ Hc) as [[hold I] F]. pose proof (gcrun_grun _ _ Hc) as Hr.
+  destruct (gi_top _ _ _ _ _ _ I) as [gt It].
+  destruct (level_progress Rp true strict GT WFT (gtop s) gt It Hf) as [[a [_ Hm]] | [[b Hm] | [e [He Hs]]]].
+  - eapply top_movable_gstep_c; eauto.
+  - destruct (0 <? gfree s) eqn:Efree.
+    + exists (GTop (ESpawn b)). eexists. split. unfold C06.gstep, C06.step. rewrite Hm, Nat.eqb_refl, Efree. reflexivity. simpl. auto.
+    + apply Nat.ltb_ge in Efree. pose proof (gi_free _ _ _ _ _ _ I) as Hfr.
+      destruct hold as [| x hold']. simpl in Hfr. lia.
+      assert (Hx : holdsg Rp Ra s x = true). { apply (gi_hold _ _ _ _ _ _ I). left. reflexivity. }
+      destruct x as [[p |] a]; simpl in Hx.
+      * destruct (get (ginner s) p) as [si |] eqn:Ep; try discriminate.
+        destruct (gi_in _ _ _ _ _ _ I p si Ep) as [Wp [gi Ii]].
+        apply (movable_gstep_in_c s p si gi a Ep Ii). apply holds_movable. assumption.
+      * apply (top_movable_gstep_c tr s _ a Hr I F). apply holds_movable. assumption.
+  - destruct (Hs (gfree s)) as [t' Hst]. exists (GTop e). eexists. split. unfold C06.gstep. rewrite Hst.
+    destruct e; try contradiction; reflexivity. destruct e; try contradiction; simpl; auto.
+Qed.
+
+End GlobalExec.
